@@ -1,4 +1,6 @@
 import AcraModel.Envelope.Masking
+import AcraModel.Envelope.MaskSession
+import AcraModel.Envelope.MaskWindowLemmas
 import Driver.C01
 /-! Driver ops for C11 (masking). -/
 namespace Driver.C11
@@ -10,14 +12,37 @@ def validSide (side : String) : Bool := side == "left" || side == "right"
 def parseCfg (k pattern len side : String) : Option MaskCfg := do
   pure { pattern := ← ofHex pattern, k := ← len.toNat?, left := side == "left", kind := ← parseKind k }
 
+/-- one column of a session: `kind:pattern:k:side:stored` -/
+def parseSessionCol (s : String) : Option (MaskCfg × Bytes) :=
+  match s.splitOn ":" with
+  | [k, pattern, len, side, stored] => do
+      if !validSide side then none else
+      pure (← parseCfg k pattern len side, ← ofHex stored)
+  | _ => none
+
+def scanTok : ScanOut → String
+  | .ok b _ => hexOf b
+  | .fatal => "fatal"
+  | .panic => "panic"
+
 def handle (op : String) (args : List String) : Option String :=
   match op, args with
+  -- session [kv ×4] cols: ONE masking.Processor / DecryptHandler / detector / wrapper over several columns
+  | "session", [pub, privs, sym, syms, cols] => do
+      let kv ← parseKV pub privs sym syms
+      let cs ← (cols.splitOn ",").mapM parseSessionCol
+      pure ("ok " ++ ",".intercalate ((maskSessionColumns C kv MaskSession.init cs).2.map scanTok))
   | "write", [k, pattern, len, side, pub, privs, sym, syms, d, rnd] => do
       if !validSide side then pure "badcfg" else
       pure (outHex (maskWrite C (← parseKV pub privs sym syms) (← parseCfg k pattern len side) (← ofHex d) (← ofHex rnd)))
   | "read", [k, pattern, len, side, pub, privs, sym, syms, d] => do
       if !validSide side then pure "badcfg" else
       pure (scanStr (maskRead C (← parseKV pub privs sym syms) (← parseCfg k pattern len side) (← ofHex d)))
+  -- windowok side window protectedPart (model only): the hypothesis `maskWindowOk` of the read theorems
+  | "windowok", [side, w, p] => do
+      if !validSide side then none else
+      let cfg : MaskCfg := { pattern := [1], k := 0, left := side == "left", kind := .block }
+      pure (toString (maskWindowOk cfg (← ofHex w) (← ofHex p)))
   | _, _ => none
 
 end Driver.C11
